@@ -6,14 +6,15 @@ SPEC = {
     'coq_check': 'C07_check',
     'parts': [
         {'pkg': 'execute', 'src': 'harness/execute/c07_test.go', 'test': 'TestVerif_C07', 'fakes': True,
-         'sinks': {'C07_merge': 'c07_judge'}, 'n': {'quick': 780, 'thorough': 26000}},
+         'sinks': {'C07_merge': 'c07_judge'}, 'n': {'quick': 850, 'thorough': 28000}},
     ],
     'known': {'1': 'F13d', '2': 'F13e'},
     'rule': 'DONs of 4..10 oracles (ids from 0..15), 1..3 source chains + destination, per-chain f in 1..3 (class weird-f: '
             '0, -1, -2, destination missing), F in 1..3 (class below-F: above the number of observations); an agreed world '
             '(1..3 commit reports per chain, 1..3 messages each, 0..2 token slots, costly ids, sender nonces) where every '
             'item is reported by thr-1, thr, thr+1, all or a random number of oracles; then 1, 2, thr-1 or thr colluding '
-            'Byzantine oracles apply one of 23 shapes (repeated - adjacent and interleaved - / split / overlapping / re-executed commit reports, a message '
+            'Byzantine oracles apply one of 25 shapes (repeated - adjacent and interleaved - / split / overlapping / re-executed commit reports, one commit report filed '
+            'under several chain keys or under a key other than its own SourceChain (alone and on top of thr-1 honest reporters), a message '
             'under extra sequence-number keys or under another chain key, variant messages, messages of a chain the oracle '
             'may not read, costly ids repeated adjacently and with other ids in between ([A,A], [A,B,A], [A,B,B,A], spread over several ids), '
             'foreign costly ids, variant and re-chained nonces, variant / missing / extra / re-keyed token slots, token data / nonces / costly '
